@@ -218,6 +218,56 @@ fn kx_m_try_unsplit_decision() {
     core::mem::forget(b);
 }
 
+/// the `data` word of an inline-Vec handle: any front offset (as in `mvec_on`) and any capacity repr
+fn any_vec_tag() -> usize {
+    let off: usize = kani::any();
+    kani::assume(off <= MAXCAP);
+    (off << VEC_POS_OFFSET) | (any_repr() << ORIGINAL_CAPACITY_OFFSET) | KIND_VEC
+}
+
+// @ob props=C01,C03,C04 tier=quick kind=Kinf fns=BytesMut::try_unsplit
+#[kani::proof]
+fn kx_m_try_unsplit_never_merges_distinct_buffers() {
+    // Two handles that are NOT both on one shared block are never merged, wherever their buffers
+    // lie - in particular when two separate buffers happen to be adjacent in memory and their
+    // `data` words are equal (inline-Vec handles: `data` is a tag, not an identity; seed C04-5).
+    // Adjacent allocations are modelled as two halves of one object (CBMC never places distinct
+    // objects next to each other); nothing is freed here, every handle is forgotten.
+    let (base, vcap) = alloc_sym();
+    let (o1, c1, l1) = (kani::any::<usize>(), kani::any::<usize>(), kani::any::<usize>());
+    let (o2, c2, l2) = (kani::any::<usize>(), kani::any::<usize>(), kani::any::<usize>());
+    kani::assume(o1 <= vcap && c1 <= vcap - o1 && l1 <= c1 && o2 <= vcap && c2 <= vcap - o2 && l2 <= c2);
+    kani::assume(o1 + c1 <= o2 || o2 + c2 <= o1);
+    kani::assume(c2 > 0);
+    let which: u8 = kani::any();
+    let (d1, d2): (*mut Shared, *mut Shared) = if which == 0 {
+        // both inline-Vec: any tags (equal or not)
+        (invalid_ptr(any_vec_tag()), invalid_ptr(any_vec_tag()))
+    } else if which == 1 {
+        // one shared, one inline-Vec
+        let (sh, _) = shared_on(base, vcap, 1);
+        let t = any_vec_tag();
+        if kani::any() { (sh, invalid_ptr(t)) } else { (invalid_ptr(t), sh) }
+    } else {
+        // two different shared blocks
+        let (sh1, _) = shared_on(base, vcap, 1);
+        let sh2 = Box::into_raw(Box::new(Shared { vec: Vec::new(), original_capacity_repr: 0, ref_count: AtomicUsize::new(1) }));
+        (sh1, sh2)
+    };
+    let mut b = BytesMut { ptr: vptr(unsafe { base.add(o1) }), len: l1, cap: c1, data: d1 };
+    let o = BytesMut { ptr: vptr(unsafe { base.add(o2) }), len: l2, cap: c2, data: d2 };
+    let r = b.try_unsplit(o);
+    match r {
+        Ok(()) => { assert!(false, "handles of different buffers were merged"); }
+        Err(o) => {
+            assert!(b.len == l1 && b.cap == c1 && b.data == d1 && o.len == l2 && o.cap == c2 && o.data == d2);
+            core::mem::forget(o);
+        }
+    }
+    kani::cover!(which == 0 && o1 + l1 == o2 && d1 == d2, "adjacent inline-Vec buffers with equal tags");
+    core::mem::forget(b);
+}
+
 // @ob props=C01,C03,C07 tier=quick kind=Kinf fns=BytesMut::freeze
 #[kani::proof]
 fn kx_marc_freeze() {
